@@ -142,7 +142,7 @@ func main() {
 		fmt.Fprintln(os.Stderr, "ERROR harness-build:", err)
 		os.Exit(2)
 	}
-	sh := &Shared{prog: prog, cfg: cfg, funcs: map[string]bool{}, redirect: map[string]*ssa.Function{}}
+	sh := &Shared{prog: prog, cfg: cfg, funcs: map[string]bool{}, redirect: map[string]*ssa.Function{}, observe: map[string]*ssa.Function{}}
 	findRedirects(sh, pkg)
 	for _, h := range cfg.Harnesses {
 		fn := pkg.Func(h)
@@ -288,7 +288,8 @@ func findRedirects(sh *Shared, pkg *ssa.Package) {
 				}
 				continue
 			}
-			if !strings.HasPrefix(line, "//verif:redirect ") {
+			isObserve := strings.HasPrefix(line, "//verif:observe ")
+			if !strings.HasPrefix(line, "//verif:redirect ") && !isObserve {
 				continue
 			}
 			f := strings.Fields(line)
@@ -300,7 +301,12 @@ func findRedirects(sh *Shared, pkg *ssa.Package) {
 				fmt.Fprintln(os.Stderr, "redirect target not found:", f[2])
 				os.Exit(2)
 			}
-			sh.redirect[f[1]] = target
+			if isObserve {
+				// the harness function is called with the same arguments before the real function runs
+				sh.observe[f[1]] = target
+			} else {
+				sh.redirect[f[1]] = target
+			}
 		}
 	}
 }
